@@ -59,7 +59,15 @@ def strLt : Bytes → Bytes → Bool
   | _ :: _, [] => false
   | a :: s, b :: t => if a < b then true else if b < a then false else strLt s t
 
-/-- `FixedFrom[T](arg)`: `f64.From[T, int](1)` / 0 for a bool, the value itself, `f64.FromString[T]` for a string -/
+/-- a byte that can occur in a text `strconv.ParseFloat` accepts once the text contains `e`/`E` (decimal or
+    hexadecimal mantissa, exponent, sign, underscore; "inf"/"nan" have no `e`) -/
+def floatByte (ch : Nat) : Bool :=
+  (48 ≤ ch && ch ≤ 57) || (97 ≤ ch && ch ≤ 102) || (65 ≤ ch && ch ≤ 70) || ch == 120 || ch == 88 || ch == 112 || ch == 80 ||
+    ch == 46 || ch == 95 || ch == 43 || ch == 45
+
+/-- `FixedFrom[T](arg)`: `f64.From[T, int](1)` / 0 for a bool, the value itself, `f64.FromString[T]` for a string.
+    A text with `e`/`E` goes to `strconv.ParseFloat`: an error when it holds a byte no float literal can hold (true,
+    false, yes …), otherwise outside the model -/
 def fixedFrom (c : Cfg) : Val → VR Int
   | .bool b => .ok (if b then Fixed.F64.fromInt c.mult 1 else 0)
   | .num raw => .ok raw
@@ -67,7 +75,7 @@ def fixedFrom (c : Cfg) : Val → VR Int
     match FixedText.fromStr64 c.places c.mult s with
     | .ok raw => .ok raw
     | .err => .err
-    | .exp => .outside                      -- strconv.ParseFloat branch
+    | .exp => if (FixedText.stripCommas s).all floatByte then .outside else .err   -- strconv.ParseFloat branch
 
 /-! ### operators (`fixed_operators.go`) -/
 
